@@ -10,6 +10,7 @@ ROOT="$(cd "$(dirname "$0")/.." && pwd)"
 [ -d /tmp/vx ] || git -C "$ROOT" worktree add -q --detach /tmp/vx HEAD
 cd "$WT" || exit 2
 git checkout -q -- . 2>/dev/null
+git checkout -q --detach "$(git -C /repo rev-parse HEAD)" 2>/dev/null   # follow fix commits made in /repo meanwhile
 git apply /tmp/seed/$NAME/patch.diff || { echo "$NAME: patch does not apply"; exit 2; }
 sed -i "s#path = \"[^\"]*\", features = \[\"verif_hooks\"\]#path = \"$WT\", features = [\"verif_hooks\"]#" /tmp/vx/harness/Cargo.toml
 cd /tmp/vx
